@@ -55,4 +55,45 @@ theorem history (es : List ε) (hes : ∀ e ∈ es, P.admissible e) :
 
 end
 
+/-! ### `Start` of the file_system provider -/
+
+theorem fsStep_create (st : St σ) (n : σ) (f : FileState) (rej : List σ) :
+    fsStep st ⟨[.create], n, f, rej⟩ = fsCreatedOrUpdated rej st n f := by
+  simp [fsStep]
+
+/-- a successful initial load is the history of one create notification per source -/
+theorem fsInit_run (rej : List σ) (files : List (σ × FileState)) (st : St σ) (h : (fsInit rej st files).err = false) :
+    (fsInit rej st files).st = run fsStep st (files.map fun p => ⟨[.create], p.1, p.2, rej⟩) := by
+  induction files generalizing st with
+  | nil => rfl
+  | cons p files ih =>
+    obtain ⟨n, f⟩ := p
+    simp only [fsInit] at h ⊢
+    cases he : (fsCreatedOrUpdated rej st n f).err with
+    | true => simp [he] at h
+    | false =>
+      simp only [he, Bool.false_eq_true, if_false] at h ⊢
+      rw [List.map_cons, run_cons, fsStep_create]
+      exact ih _ h
+
+theorem desired_of_shown (f : ε → Obs) (h : Hash) (l : List ε) (d : Option Hash)
+    (hall : ∀ x ∈ l, f x = .noinfo ∨ f x = .content h) (hsome : d = some h ∨ ∃ x ∈ l, f x = .content h) :
+    (l.map f).foldl Obs.next d = some h := by
+  induction l generalizing d with
+  | nil =>
+    rcases hsome with hd | ⟨x, hx, _⟩
+    · exact hd
+    · simp at hx
+  | cons x l ih =>
+    rw [List.map_cons, List.foldl_cons]
+    apply ih _ (fun y hy => hall y (List.mem_cons_of_mem _ hy))
+    rcases hall x (List.mem_cons_self ..) with hx | hx
+    · rw [hx]
+      rcases hsome with hd | ⟨y, hy, hfy⟩
+      · exact Or.inl hd
+      · rcases List.mem_cons.mp hy with e | hy'
+        · subst e; rw [hx] at hfy; cases hfy
+        · exact Or.inr ⟨y, hy', hfy⟩
+    · rw [hx]; exact Or.inl rfl
+
 end Heimdall.Prov
